@@ -12,4 +12,36 @@ lits = set(re.findall(r'fail\(\s*"([A-Za-z0-9_:\-]+)', src)) | set(re.findall(r'
 lits |= set(re.findall(r'"([a-z0-9\-]+-[a-z0-9\-:]+)"', src))      # keys passed around as plain literals
 dead = [p for p in simrun.KEYMAP if not any(l.startswith(p) or p.startswith(l + '-') for l in lits)]
 print('dead KEYMAP prefixes:', dead if dead else 'none')
+
+# Second check (added after seeded round 3): an oracle must be reachable from the property it is routed to. For every
+# scenario-specific source (scen_*.rs, frames.rs, and the `pub fn <scenario>` bodies of scenarios.rs) and every key literal
+# in it that KEYMAP routes to property P, P's registered scenarios must include that scenario.
+import props as P
+scen_src = {}
+lookup = open(os.path.join(root, 'harness', 'src', 'scenarios.rs')).read()
+for name, mod, fn in re.findall(r'"(\w+)" => \(crate::(\w+)::\w+, crate::\w+::(\w+) as ScenFn\)', lookup):
+    scen_src.setdefault(name, '')
+    scen_src[name] += open(os.path.join(root, 'harness', 'src', mod + '.rs')).read()
+# several scenarios may share one file: keep only the part from `pub fn <fn>` to the next top-level `pub fn`
+for name, mod, fn in re.findall(r'"(\w+)" => \(crate::(\w+)::\w+, crate::\w+::(\w+) as ScenFn\)', lookup):
+    text = open(os.path.join(root, 'harness', 'src', mod + '.rs')).read()
+    shared = [n for n, m, f in re.findall(r'"(\w+)" => \(crate::(\w+)::\w+, crate::\w+::(\w+) as ScenFn\)', lookup) if m == mod]
+    if len(shared) > 1:
+        m = re.search(r'^pub fn ' + fn + r'\(.*?(?=^pub fn |\Z)', text, flags=re.S | re.M)
+        scen_src[name] = m.group(0) if m else text
+for name, fn in re.findall(r'"(\w+)" => \(\w+, (\w+) as ScenFn\)', lookup):
+    m = re.search(r'^pub fn ' + fn + r'\(.*?(?=^pub fn |^fn |\Z)', lookup, flags=re.S | re.M)
+    scen_src[name] = m.group(0) if m else ''
+sims_of = {pid: {s[0] for s in cfg.get('sim', [])} for pid, cfg in P.PROPS.items()}
+unreach = []
+for scen, text in sorted(scen_src.items()):
+    keys = set(re.findall(r'fail\(\s*"([A-Za-z0-9_:\-]+)', text))
+    for k in sorted(keys):
+        for pid in simrun.props_for_key(k):
+            if pid != '*' and pid in sims_of and scen not in sims_of[pid]:
+                unreach.append((scen, k, pid))
+print('oracles not reachable from the property they are routed to (scenario, key, property):')
+for u in unreach:
+    print('  ', u)
+print('  none' if not unreach else f'  {len(unreach)} (informational: a key may be routed to a second property on purpose)')
 sys.exit(1 if dead else 0)
